@@ -277,6 +277,11 @@ def rule_shortcircuit(ctx, p: Project):
             if (f.name in Q or (S, f.name) in RESULT_ALIASES) and _result_table_ok(p, f, txt):
                 ctx.ob(rule, inst + ":result", True, detail=f"one-exit form: on every path with the slot present the result is the (copied) slot recorded from `{f.name}`, untouched; the slot is not involved otherwise")
                 continue
+            if table_cache.get((f.key, txt)) is False:
+                ctx.ob(rule, inst + ":result", False, where=f, node=stmt if stmt is not None else node, construct=f"{f.qualname}: {norm_text(stmt)[:80] if stmt is not None else txt}",
+                       message=f"`{S}` was recorded as the finished `{f.name}`, but on some returning path of {f.qualname} with the slot present the result is not the (copied) slot itself: "
+                               f"it is processed further (the later steps are applied a second time), or the slot enters the result on a path where it is absent")
+                continue
             ctx.ob(rule, inst + ":other", False, where=f, node=stmt if stmt is not None else node, construct=f"{f.qualname}: {norm_text(stmt)[:80] if stmt is not None else txt}",
                    message=f"unclassified use of preload slot `{S}` (neither presence test, early return nor substitution)")
     for S in sorted(slots - consumed - DOWNSTREAM_SLOTS):
